@@ -436,6 +436,6 @@ MANIFEST = dict(
          'early data, EOF is forwarded once per direction (also an early EOF with no data), any loss closes both ends. Permissions: direct-tcpip and '
          'tcpip-forward are served exactly when key options, certificate options, permitopen and the application all allow the destination, and the '
          'listener is registered and closed with the connection. SOCKS: intact, corrupted and truncated SOCKS4/4a/5 requests in any chunking never '
-         'raise into the loop, open at most one tunnel to the decoded destination, and relay trailing bytes as payload.',
+         'raise into the loop, open at most one tunnel to the decoded destination, and relay trailing bytes as payload; a local forwarder opens every accepted connection to exactly the configured destination (dynamic port = the port really bound).',
     note='Real sockets/UNIX paths/listener release by the OS, X11 and agent forwarding, and streamlocal variants are outside; the relay history is '
          'bounded to 5 events. Trusted: CrossHair, z3, recording transports and oracles in props/C20.py.')
